@@ -256,7 +256,7 @@ type linState struct {
 }
 
 var linModel = porcupine.Model{
-	Init: func() interface{} { return linState{} },
+	Init: func() interface{} { return linState{ver: -1} },
 	Step: func(st, in, out interface{}) (bool, interface{}) {
 		s := st.(linState)
 		i := in.(linIn)
